@@ -33,6 +33,7 @@ Fails(p, a, o) == CASE p = "C01" -> C01_Fails(a, o)
                     [] p = "C07" -> C07_Fails(a, o)
                     [] p = "C08" -> C08_Fails(a, o)
                     [] p = "C20" -> C20_Fails(a, o)
+                    [] p = "C09" -> C09_Fails(a, o)
 
 Report(o) == \A p \in Props : LET f == Fails(p, aux, o) IN IF f = {} THEN TRUE ELSE PrintT(<<"VIOL", l, p, f>>)
 
